@@ -253,10 +253,9 @@ def main_check(prop, tier, seed, mod, only=None):
                     lines.append(f"  what: {v['what'][:400]} [key={v['key']}] obligation={r['name']}")
                 seen_keys.add(('V', v['key']))
     if n_viol:
-        exit_code = 1 if exit_code in (0, 2) else exit_code
-        # a reproduced violation is reported even if some other obligation was inconclusive
-        if exit_code == 3:
-            pass
+        # a reproduced, unlisted violation decides the outcome even if another obligation was inconclusive or another
+        # candidate failed to reproduce (those are still printed above)
+        exit_code = 1
     wall = time.time() - t0
     write_evidence(prop, tier, seed, mod, obs, results, n_viol, known_hits, wall)
     for ln in lines:
